@@ -1,7 +1,7 @@
 (* C09 - Saved configuration is the only input of later regenerations.
    Only statements; proofs live in theories/State. *)
 From Coq Require Import String.
-From BFG Require Import Base.Chars State.EnvStore State.EnvStoreProofs.
+From BFG Require Import Base.Chars State.EnvStore State.EnvStoreProofs State.EnvJson State.EnvJsonProofs.
 
 (* After every sequence of operations on EnvVarDict(pairs) (every overridden mutator, reset, a JSON round trip
    in the middle, reads of changes), applying the recorded changes to the initial variables gives a mapping
@@ -46,3 +46,46 @@ Example C09_replay_example :
   /\ current s = [(STR "CC", STR "clang")]
   /\ apply_changes (initial s) (the_changes s) = [(STR "CC", STR "clang")].
 Proof. vm_compute. repeat split. Qed.
+
+(* ---- the saved file *)
+
+(* to_json then from_json of the variable store gives the same initial and current mappings (same order) with
+   the attribute _changes absent; the changes recomputed from them still replay to the current variables *)
+Theorem C09_store_json_rt : forall s, wf s -> store_of_json (store_to_json s) = Ok (reload s).
+Proof. exact store_json_rt. Qed.
+Print Assumptions C09_store_json_rt.
+
+Theorem C09_store_json_meaning : forall s, Inv s ->
+  initial (reload s) = initial s /\ current (reload s) = current s /\
+  forall k, dget k (apply_changes (initial s) (the_changes (reload s))) = dget k (current s).
+Proof. exact store_json_meaning. Qed.
+Print Assumptions C09_store_json_meaning.
+
+(* a path in normal form (no home-directory, drive or UNC prefix) is read back from its JSON form with every
+   attribute, including the directory flag that Path equality ignores *)
+Theorem C09_path_json_rt : forall p, path_ok p = true -> path_from_json (path_to_json p) = Ok p.
+Proof. exact path_json_rt. Qed.
+Print Assumptions C09_path_json_rt.
+
+(* Environment.save then Environment.load: every field comes back (the variables with _changes absent), on
+   whatever machine the file is loaded (the facts x about the loading machine are not used) *)
+Theorem C09_env_rt : forall x e, env_ok e -> env_of_json x (env_to_json e) = Ok (env_reloaded e).
+Proof. exact env_json_rt. Qed.
+Print Assumptions C09_env_rt.
+
+Example C09_path_example :
+  let p := mkPath (STR "/usr/my lib") RAbsolute true true in
+  path_ok p = true /\ path_to_json p = JArr [JStr (STR "/usr/my lib/"); JStr (STR "absolute"); JBool true].
+Proof. vm_compute. split; reflexivity. Qed.
+
+Example C09_env_example :
+  let d := mkPath (STR "/b d") RAbsolute false true in
+  let e := mkEnv d (STR "make") (STR "4.3") (mkPlatform (STR "linux") (STR "linux") (STR "x86_64"))
+                 (mkPlatform (STR "linux") (STR "android") (STR "arm")) d d
+                 [(IPrefix, Some (mkPath (STR "/usr") RAbsolute true true)); (IBindir, None);
+                  (IMandir, Some (mkPath [] (RInstall IDatadir) false true))]
+                 (Some (mkPath (STR "tc.bfg") RSrcdir false false)) [mkPath (STR "/m.yml") RAbsolute false false]
+                 (true, false) true (Some [STR "--x"])
+                 (run [OSet (VStr (STR "CC")) (VStr (STR "clang"))] (init [(STR "CC", STR "gcc")])) in
+  env_ok e.
+Proof. vm_compute. repeat split; repeat constructor; intros []. Qed.
